@@ -45,13 +45,13 @@ func init() {
 		return Plan{Runs: 80 + 240, Enumerated: 80, Level: "exploration", Rule: c02rule}
 	}, Run: runC02})
 	register(&PropDef{ID: "C05", Plan: func(tier string) Plan {
-		m := len(c05signers) * 2 * 3 * 2 // signer x serial x status x strict
+		m := 2 * len(c05signers) * 2 * 3 * 2 // trusted-responder config x signer x serial x status x strict
 		e := len(c05respStatus) * 2
 		n := m + e + 60
 		if tier == "thorough" {
 			n = m + e + 700
 		}
-		return Plan{Runs: n, Enumerated: m + e, Exhaustive: true, Level: "fault_enumeration", Rule: "runs enumerate signer in {issuer, delegated responder with/without OCSPSigning EKU, the client's own certificate, stranger with/without embedded certificate, sibling CA} x serial in {this, other} x status in {good, revoked, unknown} x strict in {on, off}, then response status in {malformed, internalError, tryLater, sigRequired, unauthorized} x strict; the remaining runs flip one byte (position enumerated over the response in thorough, sampled in quick) of an authentic response; each case is a 2-step history: (1) responder answers with the case, (2) responder down; oracle: a non-authentic answer behaves exactly as no answer and nothing is cached; non-trivial = the response was not authentic"}
+		return Plan{Runs: n, Enumerated: m + e, Exhaustive: true, Level: "fault_enumeration", Rule: "runs enumerate trusted_responder_certs_files in {empty, contains the issuing CA} x signer in {issuer, delegated responder with/without OCSPSigning EKU, the client's own certificate, stranger with/without embedded certificate, sibling CA} x serial in {this, other} x status in {good, revoked, unknown} x strict in {on, off}, then response status in {malformed, internalError, tryLater, sigRequired, unauthorized} x strict; the remaining runs flip one byte (position enumerated over the response in thorough, sampled in quick) of an authentic response; each case is a 2-step history: (1) responder answers with the case, (2) responder down; oracle: a non-authentic answer behaves exactly as no answer and nothing is cached; non-trivial = the response was not authentic"}
 	}, Run: runC05})
 	register(&PropDef{ID: "C14", Plan: func(tier string) Plan {
 		n := 160
@@ -264,8 +264,10 @@ var c05respStatus = []ocsp.ResponseStatus{ocsp.Malformed, ocsp.InternalError, oc
 func runC05(h *Harness) {
 	tp := h.Tape
 	sc := h.R.Scenario
-	m := len(c05signers) * 2 * 3 * 2
+	m0 := len(c05signers) * 2 * 3 * 2
+	m := 2 * m0
 	e := len(c05respStatus) * 2
+	trustedIssuer := h.Idx%2 == 1
 	w := NewWorld(h, WorldOpts{Intermediate: false})
 	resp := w.NewResponder("http://ocsp.sim/", w.A)
 	serial := big.NewInt(0x77aa)
@@ -276,7 +278,8 @@ func runC05(h *Harness) {
 	desc := ""
 	switch {
 	case h.Idx < m:
-		i := h.Idx
+		i := h.Idx % m0
+		trustedIssuer = h.Idx >= m0
 		resp.Signer = c05signers[i%len(c05signers)]
 		i /= len(c05signers)
 		resp.OtherSer = i%2 == 1
@@ -319,6 +322,13 @@ func runC05(h *Harness) {
 	resp.Status = status
 	sc["case"], sc["strict"] = desc, strict
 	cfg := NodeCfg{Mode: "ocsp_only", AIAStrict: strict, OCSPCache: "10m"}
+	// half of the cases run with the issuing CA also listed in trusted_responder_certs_files (redundant but legal):
+	// that must not widen what counts as an authorised responder
+	if trustedIssuer {
+		cfg.OCSPTrusted = []string{h.WriteFile("trust/issuer.pem", CertPEM(w.A.Cert))}
+		desc += " +issuer-in-trusted-responders"
+		sc["case"] = desc
+	}
 	n := h.NewNode("n1", cfg)
 	if err := h.Provision(n); err != nil {
 		h.Violation("C05.setup", "provision-failed", "%v", err)
